@@ -72,6 +72,8 @@ static int _handle_component_hs_response(xmpp_conn_t *conn,
                                          void *userdata);
 
 static int
+_handle_features(xmpp_conn_t *conn, xmpp_stanza_t *stanza, void *userdata);
+static int
 _handle_features_sasl(xmpp_conn_t *conn, xmpp_stanza_t *stanza, void *userdata);
 static int _handle_features_compress(xmpp_conn_t *conn,
                                      xmpp_stanza_t *stanza,
@@ -201,6 +203,9 @@ static int _handle_missing_features(xmpp_conn_t *conn, void *userdata)
     UNUSED(userdata);
 
     strophe_debug(conn->ctx, "xmpp", "didn't get stream features");
+
+    /* features arriving later must not start authentication a second time */
+    xmpp_handler_delete(conn, _handle_features);
 
     /* legacy auth will be attempted */
     _auth(conn);
